@@ -23,7 +23,7 @@ int main( int argc, char** argv )
    auto ops = []( std::vector< const char* > v ) { std::vector< int > r; for( auto n : v ) r.push_back( op_by_name( n ) ); return r; };
    ProgEnum pe;
    pe.maxn = 3;
-   pe.root = ops( { "ANY", "ONE_A", "NOT_ONE_A", "RANGE_AB", "STRING_AB", "EOF_", "SUCCESS", "FAILURE", "STAR", "PLUS", "OPT", "AT", "NOT_AT", "SEQ", "SOR", "SEQ3", "SOR3", "STAR2", "PLUS2", "OPT2", "AT2", "NOT_AT2",
+   pe.root = ops( { "ANY", "ONE_A", "NOT_ONE_A", "RANGE_AB", "STRING_AB", "EOF_", "SUCCESS", "FAILURE", "STAR", "PLUS", "OPT", "AT", "NOT_AT", "SEQ", "SOR", "SEQ1", "SOR1", "SEQ3", "SOR3", "STAR2", "PLUS2", "OPT2", "AT2", "NOT_AT2",
                     "IF_THEN_ELSE", "UNTIL1", "UNTIL2", "LIST", "PAD", "MINUS", "REMATCH", "PARTIAL", "STAR_PARTIAL", "STRICT", "REP2", "REP_MIN1", "RMM12", "REP_OPT2", "OPT_MUST", "LIST_TAIL" } );
    pe.inner = pe.root;
    std::vector< std::string > inputs;
